@@ -55,32 +55,46 @@ type weblog struct {
 func (l *weblog) ev(s string) { l.events = append(l.events, s) }
 
 type webHarness struct {
-	e    *Env
-	log  *weblog
-	c    webCase
-	exit string // exit path of the request being served
+	e     *Env
+	log   *weblog            // log of the most recent sequential request
+	logs  map[string]*weblog // per request id (header X-Req)
+	exits map[string]string  // exit path per request id
+	c     webCase
+}
+
+// lg returns the log of request id.
+func (h *webHarness) lg(id string) *weblog {
+	if l := h.logs[id]; l != nil {
+		return l
+	}
+	if h.logs == nil {
+		h.logs = map[string]*weblog{}
+	}
+	l := &weblog{}
+	h.logs[id] = l
+	return l
 }
 
 var errMw = errors.New("middleware says no")
 var errHandler = errors.New("handler says no")
 
-func (h *webHarness) mw(i int, s godi.Scope) error {
+func (h *webHarness) mw(i int, s godi.Scope, id string) error {
 	vsched.Yield("mw")
-	h.log.ev(fmt.Sprintf("mw%d", i))
-	h.log.scopes = append(h.log.scopes, s)
-	if h.exit == "mw-error" && i == h.c.MwErrAt {
+	h.lg(id).ev(fmt.Sprintf("mw%d", i))
+	h.lg(id).scopes = append(h.lg(id).scopes, s)
+	if h.exits[id] == "mw-error" && i == h.c.MwErrAt {
 		return errMw
 	}
 	return nil
 }
 
 // method is the controller method body shared by all integrations.
-func (h *webHarness) method(ctl *kit.P2, fromCtx godi.Scope) error {
+func (h *webHarness) method(ctl *kit.P2, fromCtx godi.Scope, id string) error {
 	vsched.Yield("handler")
-	h.log.ev("handler")
-	h.log.ctl = ctl
-	h.log.scopes = append(h.log.scopes, fromCtx)
-	switch h.exit {
+	h.lg(id).ev("handler")
+	h.lg(id).ctl = ctl
+	h.lg(id).scopes = append(h.lg(id).scopes, fromCtx)
+	switch h.exits[id] {
 	case "handler-panic":
 		panic("handler panics")
 	case "handler-error":
@@ -96,16 +110,17 @@ type served struct {
 }
 
 type webRouter interface {
-	serve(path string) served
+	serve(path, id string) served
 }
 
 // ---- net/http and chi (plain net/http chain)
 
 type stdRouter struct{ mux *http.ServeMux }
 
-func (r *stdRouter) serve(path string) (out served) {
+func (r *stdRouter) serve(path, id string) (out served) {
 	rec := httptest.NewRecorder()
 	req := httptest.NewRequest("GET", path, nil)
+	req.Header.Set("X-Req", id)
 	p, did := kit.Try(func() { r.mux.ServeHTTP(rec, req) })
 	if did {
 		out.panicked = p
@@ -116,51 +131,67 @@ func (r *stdRouter) serve(path string) (out served) {
 
 func (h *webHarness) buildStd(chi bool) webRouter {
 	mux := http.NewServeMux()
-	l := func() *weblog { return h.log }
+	lr := func(r *http.Request) *weblog { return h.lg(r.Header.Get("X-Req")) }
 	var mwf func(http.Handler) http.Handler
 	scopeOf := func(r *http.Request) godi.Scope { s, _ := godi.FromContext(r.Context()); return s }
 	if chi {
 		var opts []godichi.Option
 		if h.c.CustomErr {
-			opts = append(opts, godichi.WithErrorHandler(func(w http.ResponseWriter, r *http.Request, err error) { l().ev("errorHandler"); w.WriteHeader(599) }),
-				godichi.WithCloseErrorHandler(func(error) { l().ev("closeErrorHandler") }))
+			opts = append(opts, godichi.WithErrorHandler(func(w http.ResponseWriter, r *http.Request, err error) { lr(r).ev("errorHandler"); w.WriteHeader(599) }),
+				godichi.WithCloseErrorHandler(func(error) { h.lg("close").ev("closeErrorHandler") }))
 		}
 		for i := 0; i < h.c.NMw; i++ {
 			i := i
-			opts = append(opts, godichi.WithMiddleware(func(s godi.Scope, r *http.Request) error { return h.mw(i, s) }))
+			opts = append(opts, godichi.WithMiddleware(func(s godi.Scope, r *http.Request) error { return h.mw(i, s, r.Header.Get("X-Req")) }))
 		}
 		mwf = godichi.ScopeMiddleware(h.e.Prov, opts...)
 		var hopts []godichi.HandlerOption
 		hopts = append(hopts, godichi.WithPanicRecovery(h.c.Recovery))
 		if h.c.CustomHands {
-			hopts = append(hopts, godichi.WithPanicHandler(func(w http.ResponseWriter, r *http.Request, v any) { l().ev("panicHandler"); w.WriteHeader(598) }),
-				godichi.WithScopeErrorHandler(func(w http.ResponseWriter, r *http.Request, err error) { l().ev("scopeErrorHandler"); w.WriteHeader(597) }),
-				godichi.WithResolutionErrorHandler(func(w http.ResponseWriter, r *http.Request, err error) { l().ev("resolutionErrorHandler"); w.WriteHeader(596) }))
+			hopts = append(hopts, godichi.WithPanicHandler(func(w http.ResponseWriter, r *http.Request, v any) { lr(r).ev("panicHandler"); w.WriteHeader(598) }),
+				godichi.WithScopeErrorHandler(func(w http.ResponseWriter, r *http.Request, err error) {
+					lr(r).ev("scopeErrorHandler")
+					w.WriteHeader(597)
+				}),
+				godichi.WithResolutionErrorHandler(func(w http.ResponseWriter, r *http.Request, err error) {
+					lr(r).ev("resolutionErrorHandler")
+					w.WriteHeader(596)
+				}))
 		}
-		mux.Handle("/h", mwf(godichi.Handle(func(c *kit.P2, w http.ResponseWriter, r *http.Request) { h.method(c, scopeOf(r)) }, hopts...)))
-		mux.Handle("/missing", mwf(godichi.Handle(func(c *kit.P5, w http.ResponseWriter, r *http.Request) { l().ev("handler") }, hopts...)))
-		mux.Handle("/nomw", godichi.Handle(func(c *kit.P2, w http.ResponseWriter, r *http.Request) { l().ev("handler") }, hopts...))
+		mux.Handle("/h", mwf(godichi.Handle(func(c *kit.P2, w http.ResponseWriter, r *http.Request) {
+			h.method(c, scopeOf(r), r.Header.Get("X-Req"))
+		}, hopts...)))
+		mux.Handle("/missing", mwf(godichi.Handle(func(c *kit.P5, w http.ResponseWriter, r *http.Request) { lr(r).ev("handler") }, hopts...)))
+		mux.Handle("/nomw", godichi.Handle(func(c *kit.P2, w http.ResponseWriter, r *http.Request) { lr(r).ev("handler") }, hopts...))
 	} else {
 		var opts []godihttp.Option
 		if h.c.CustomErr {
-			opts = append(opts, godihttp.WithErrorHandler(func(w http.ResponseWriter, r *http.Request, err error) { l().ev("errorHandler"); w.WriteHeader(599) }),
-				godihttp.WithCloseErrorHandler(func(error) { l().ev("closeErrorHandler") }))
+			opts = append(opts, godihttp.WithErrorHandler(func(w http.ResponseWriter, r *http.Request, err error) { lr(r).ev("errorHandler"); w.WriteHeader(599) }),
+				godihttp.WithCloseErrorHandler(func(error) { h.lg("close").ev("closeErrorHandler") }))
 		}
 		for i := 0; i < h.c.NMw; i++ {
 			i := i
-			opts = append(opts, godihttp.WithMiddleware(func(s godi.Scope, r *http.Request) error { return h.mw(i, s) }))
+			opts = append(opts, godihttp.WithMiddleware(func(s godi.Scope, r *http.Request) error { return h.mw(i, s, r.Header.Get("X-Req")) }))
 		}
 		mwf = godihttp.ScopeMiddleware(h.e.Prov, opts...)
 		var hopts []godihttp.HandlerOption
 		hopts = append(hopts, godihttp.WithPanicRecovery(h.c.Recovery))
 		if h.c.CustomHands {
-			hopts = append(hopts, godihttp.WithPanicHandler(func(w http.ResponseWriter, r *http.Request, v any) { l().ev("panicHandler"); w.WriteHeader(598) }),
-				godihttp.WithScopeErrorHandler(func(w http.ResponseWriter, r *http.Request, err error) { l().ev("scopeErrorHandler"); w.WriteHeader(597) }),
-				godihttp.WithResolutionErrorHandler(func(w http.ResponseWriter, r *http.Request, err error) { l().ev("resolutionErrorHandler"); w.WriteHeader(596) }))
+			hopts = append(hopts, godihttp.WithPanicHandler(func(w http.ResponseWriter, r *http.Request, v any) { lr(r).ev("panicHandler"); w.WriteHeader(598) }),
+				godihttp.WithScopeErrorHandler(func(w http.ResponseWriter, r *http.Request, err error) {
+					lr(r).ev("scopeErrorHandler")
+					w.WriteHeader(597)
+				}),
+				godihttp.WithResolutionErrorHandler(func(w http.ResponseWriter, r *http.Request, err error) {
+					lr(r).ev("resolutionErrorHandler")
+					w.WriteHeader(596)
+				}))
 		}
-		mux.Handle("/h", mwf(godihttp.Handle(func(c *kit.P2, w http.ResponseWriter, r *http.Request) { h.method(c, scopeOf(r)) }, hopts...)))
-		mux.Handle("/missing", mwf(godihttp.Handle(func(c *kit.P5, w http.ResponseWriter, r *http.Request) { l().ev("handler") }, hopts...)))
-		mux.Handle("/nomw", godihttp.Handle(func(c *kit.P2, w http.ResponseWriter, r *http.Request) { l().ev("handler") }, hopts...))
+		mux.Handle("/h", mwf(godihttp.Handle(func(c *kit.P2, w http.ResponseWriter, r *http.Request) {
+			h.method(c, scopeOf(r), r.Header.Get("X-Req"))
+		}, hopts...)))
+		mux.Handle("/missing", mwf(godihttp.Handle(func(c *kit.P5, w http.ResponseWriter, r *http.Request) { lr(r).ev("handler") }, hopts...)))
+		mux.Handle("/nomw", godihttp.Handle(func(c *kit.P2, w http.ResponseWriter, r *http.Request) { lr(r).ev("handler") }, hopts...))
 	}
 	mux.Handle("/raw", mwf(http.HandlerFunc(func(w http.ResponseWriter, r *http.Request) {
 		s := scopeOf(r)
@@ -168,7 +199,7 @@ func (h *webHarness) buildStd(chi bool) webRouter {
 		if s != nil {
 			ctl, _ = godi.Resolve[*kit.P2](s)
 		}
-		h.method(ctl, s)
+		h.method(ctl, s, r.Header.Get("X-Req"))
 	})))
 	return &stdRouter{mux}
 }
@@ -177,9 +208,10 @@ func (h *webHarness) buildStd(chi bool) webRouter {
 
 type ginRouter struct{ eng *gin.Engine }
 
-func (r *ginRouter) serve(path string) (out served) {
+func (r *ginRouter) serve(path, id string) (out served) {
 	rec := httptest.NewRecorder()
 	req := httptest.NewRequest("GET", path, nil)
+	req.Header.Set("X-Req", id)
 	p, did := kit.Try(func() { r.eng.ServeHTTP(rec, req) })
 	if did {
 		out.panicked = p
@@ -191,35 +223,35 @@ func (r *ginRouter) serve(path string) (out served) {
 func (h *webHarness) buildGin() webRouter {
 	gin.SetMode(gin.ReleaseMode)
 	eng := gin.New()
-	l := func() *weblog { return h.log }
+	lr := func(c *gin.Context) *weblog { return h.lg(c.GetHeader("X-Req")) }
 	var opts []godigin.Option
 	if h.c.CustomErr {
-		opts = append(opts, godigin.WithErrorHandler(func(c *gin.Context, err error) { l().ev("errorHandler"); c.Status(599) }),
-			godigin.WithCloseErrorHandler(func(error) { l().ev("closeErrorHandler") }))
+		opts = append(opts, godigin.WithErrorHandler(func(c *gin.Context, err error) { lr(c).ev("errorHandler"); c.Status(599) }),
+			godigin.WithCloseErrorHandler(func(error) { h.lg("close").ev("closeErrorHandler") }))
 	}
 	for i := 0; i < h.c.NMw; i++ {
 		i := i
-		opts = append(opts, godigin.WithMiddleware(func(s godi.Scope, c *gin.Context) error { return h.mw(i, s) }))
+		opts = append(opts, godigin.WithMiddleware(func(s godi.Scope, c *gin.Context) error { return h.mw(i, s, c.GetHeader("X-Req")) }))
 	}
 	mw := godigin.ScopeMiddleware(h.e.Prov, opts...)
 	var hopts []godigin.HandlerOption
 	hopts = append(hopts, godigin.WithPanicRecovery(h.c.Recovery))
 	if h.c.CustomHands {
-		hopts = append(hopts, godigin.WithPanicHandler(func(c *gin.Context, v any) { l().ev("panicHandler"); c.Status(598) }),
-			godigin.WithScopeErrorHandler(func(c *gin.Context, err error) { l().ev("scopeErrorHandler"); c.Status(597) }),
-			godigin.WithResolutionErrorHandler(func(c *gin.Context, err error) { l().ev("resolutionErrorHandler"); c.Status(596) }))
+		hopts = append(hopts, godigin.WithPanicHandler(func(c *gin.Context, v any) { lr(c).ev("panicHandler"); c.Status(598) }),
+			godigin.WithScopeErrorHandler(func(c *gin.Context, err error) { lr(c).ev("scopeErrorHandler"); c.Status(597) }),
+			godigin.WithResolutionErrorHandler(func(c *gin.Context, err error) { lr(c).ev("resolutionErrorHandler"); c.Status(596) }))
 	}
 	scopeOf := func(c *gin.Context) godi.Scope { s, _ := godi.FromContext(c.Request.Context()); return s }
-	eng.GET("/h", mw, godigin.Handle(func(ctl *kit.P2, c *gin.Context) { h.method(ctl, scopeOf(c)) }, hopts...))
-	eng.GET("/missing", mw, godigin.Handle(func(ctl *kit.P5, c *gin.Context) { l().ev("handler") }, hopts...))
-	eng.GET("/nomw", godigin.Handle(func(ctl *kit.P2, c *gin.Context) { l().ev("handler") }, hopts...))
+	eng.GET("/h", mw, godigin.Handle(func(ctl *kit.P2, c *gin.Context) { h.method(ctl, scopeOf(c), c.GetHeader("X-Req")) }, hopts...))
+	eng.GET("/missing", mw, godigin.Handle(func(ctl *kit.P5, c *gin.Context) { lr(c).ev("handler") }, hopts...))
+	eng.GET("/nomw", godigin.Handle(func(ctl *kit.P2, c *gin.Context) { lr(c).ev("handler") }, hopts...))
 	eng.GET("/raw", mw, func(c *gin.Context) {
 		s := scopeOf(c)
 		var ctl *kit.P2
 		if s != nil {
 			ctl, _ = godi.Resolve[*kit.P2](s)
 		}
-		h.method(ctl, s)
+		h.method(ctl, s, c.GetHeader("X-Req"))
 	})
 	return &ginRouter{eng}
 }
@@ -228,9 +260,10 @@ func (h *webHarness) buildGin() webRouter {
 
 type echoRouter struct{ e *echo.Echo }
 
-func (r *echoRouter) serve(path string) (out served) {
+func (r *echoRouter) serve(path, id string) (out served) {
 	rec := httptest.NewRecorder()
 	req := httptest.NewRequest("GET", path, nil)
+	req.Header.Set("X-Req", id)
 	p, did := kit.Try(func() { r.e.ServeHTTP(rec, req) })
 	if did {
 		out.panicked = p
@@ -242,35 +275,37 @@ func (r *echoRouter) serve(path string) (out served) {
 func (h *webHarness) buildEcho() webRouter {
 	e := echo.New()
 	e.HideBanner = true
-	l := func() *weblog { return h.log }
+	lr := func(c echo.Context) *weblog { return h.lg(c.Request().Header.Get("X-Req")) }
 	var opts []godiecho.Option
 	if h.c.CustomErr {
-		opts = append(opts, godiecho.WithErrorHandler(func(c echo.Context, err error) error { l().ev("errorHandler"); return c.NoContent(599) }),
-			godiecho.WithCloseErrorHandler(func(error) { l().ev("closeErrorHandler") }))
+		opts = append(opts, godiecho.WithErrorHandler(func(c echo.Context, err error) error { lr(c).ev("errorHandler"); return c.NoContent(599) }),
+			godiecho.WithCloseErrorHandler(func(error) { h.lg("close").ev("closeErrorHandler") }))
 	}
 	for i := 0; i < h.c.NMw; i++ {
 		i := i
-		opts = append(opts, godiecho.WithMiddleware(func(s godi.Scope, c echo.Context) error { return h.mw(i, s) }))
+		opts = append(opts, godiecho.WithMiddleware(func(s godi.Scope, c echo.Context) error { return h.mw(i, s, c.Request().Header.Get("X-Req")) }))
 	}
 	mw := godiecho.ScopeMiddleware(h.e.Prov, opts...)
 	var hopts []godiecho.HandlerOption
 	hopts = append(hopts, godiecho.WithPanicRecovery(h.c.Recovery))
 	if h.c.CustomHands {
-		hopts = append(hopts, godiecho.WithPanicHandler(func(c echo.Context, v any) error { l().ev("panicHandler"); return c.NoContent(598) }),
-			godiecho.WithScopeErrorHandler(func(c echo.Context, err error) error { l().ev("scopeErrorHandler"); return c.NoContent(597) }),
-			godiecho.WithResolutionErrorHandler(func(c echo.Context, err error) error { l().ev("resolutionErrorHandler"); return c.NoContent(596) }))
+		hopts = append(hopts, godiecho.WithPanicHandler(func(c echo.Context, v any) error { lr(c).ev("panicHandler"); return c.NoContent(598) }),
+			godiecho.WithScopeErrorHandler(func(c echo.Context, err error) error { lr(c).ev("scopeErrorHandler"); return c.NoContent(597) }),
+			godiecho.WithResolutionErrorHandler(func(c echo.Context, err error) error { lr(c).ev("resolutionErrorHandler"); return c.NoContent(596) }))
 	}
 	scopeOf := func(c echo.Context) godi.Scope { s, _ := godi.FromContext(c.Request().Context()); return s }
-	e.GET("/h", godiecho.Handle(func(ctl *kit.P2, c echo.Context) error { return h.method(ctl, scopeOf(c)) }, hopts...), mw)
-	e.GET("/missing", godiecho.Handle(func(ctl *kit.P5, c echo.Context) error { l().ev("handler"); return nil }, hopts...), mw)
-	e.GET("/nomw", godiecho.Handle(func(ctl *kit.P2, c echo.Context) error { l().ev("handler"); return nil }, hopts...))
+	e.GET("/h", godiecho.Handle(func(ctl *kit.P2, c echo.Context) error {
+		return h.method(ctl, scopeOf(c), c.Request().Header.Get("X-Req"))
+	}, hopts...), mw)
+	e.GET("/missing", godiecho.Handle(func(ctl *kit.P5, c echo.Context) error { lr(c).ev("handler"); return nil }, hopts...), mw)
+	e.GET("/nomw", godiecho.Handle(func(ctl *kit.P2, c echo.Context) error { lr(c).ev("handler"); return nil }, hopts...))
 	e.GET("/raw", func(c echo.Context) error {
 		s := scopeOf(c)
 		var ctl *kit.P2
 		if s != nil {
 			ctl, _ = godi.Resolve[*kit.P2](s)
 		}
-		return h.method(ctl, s)
+		return h.method(ctl, s, c.Request().Header.Get("X-Req"))
 	}, mw)
 	return &echoRouter{e}
 }
@@ -279,8 +314,9 @@ func (h *webHarness) buildEcho() webRouter {
 
 type fiberRouter struct{ app *fiber.App }
 
-func (r *fiberRouter) serve(path string) (out served) {
+func (r *fiberRouter) serve(path, id string) (out served) {
 	req := httptest.NewRequest("GET", path, nil)
+	req.Header.Set("X-Req", id)
 	var resp *http.Response
 	p, did := kit.Try(func() { resp, out.err = r.app.Test(req, -1) })
 	if did {
@@ -296,27 +332,27 @@ func (h *webHarness) buildFiber() webRouter {
 	app := fiber.New(fiber.Config{DisableStartupMessage: true})
 	// a panic reaching fasthttp would kill the process: fiber's own recover middleware is always outermost
 	app.Use(fiberrecover.New())
-	l := func() *weblog { return h.log }
+	lr := func(c *fiber.Ctx) *weblog { return h.lg(c.Get("X-Req")) }
 	var opts []godifiber.Option
 	if h.c.CustomErr {
-		opts = append(opts, godifiber.WithErrorHandler(func(c *fiber.Ctx, err error) error { l().ev("errorHandler"); return c.SendStatus(599) }),
-			godifiber.WithCloseErrorHandler(func(error) { l().ev("closeErrorHandler") }))
+		opts = append(opts, godifiber.WithErrorHandler(func(c *fiber.Ctx, err error) error { lr(c).ev("errorHandler"); return c.SendStatus(599) }),
+			godifiber.WithCloseErrorHandler(func(error) { h.lg("close").ev("closeErrorHandler") }))
 	}
 	for i := 0; i < h.c.NMw; i++ {
 		i := i
-		opts = append(opts, godifiber.WithMiddleware(func(s godi.Scope, c *fiber.Ctx) error { return h.mw(i, s) }))
+		opts = append(opts, godifiber.WithMiddleware(func(s godi.Scope, c *fiber.Ctx) error { return h.mw(i, s, c.Get("X-Req")) }))
 	}
 	mw := godifiber.ScopeMiddleware(h.e.Prov, opts...)
 	var hopts []godifiber.HandlerOption
 	hopts = append(hopts, godifiber.WithPanicRecovery(h.c.Recovery))
 	if h.c.CustomHands {
-		hopts = append(hopts, godifiber.WithPanicHandler(func(c *fiber.Ctx, v any) error { l().ev("panicHandler"); return c.SendStatus(598) }),
-			godifiber.WithScopeErrorHandler(func(c *fiber.Ctx, err error) error { l().ev("scopeErrorHandler"); return c.SendStatus(597) }),
-			godifiber.WithResolutionErrorHandler(func(c *fiber.Ctx, err error) error { l().ev("resolutionErrorHandler"); return c.SendStatus(596) }))
+		hopts = append(hopts, godifiber.WithPanicHandler(func(c *fiber.Ctx, v any) error { lr(c).ev("panicHandler"); return c.SendStatus(598) }),
+			godifiber.WithScopeErrorHandler(func(c *fiber.Ctx, err error) error { lr(c).ev("scopeErrorHandler"); return c.SendStatus(597) }),
+			godifiber.WithResolutionErrorHandler(func(c *fiber.Ctx, err error) error { lr(c).ev("resolutionErrorHandler"); return c.SendStatus(596) }))
 	}
-	app.Get("/h", mw, godifiber.Handle(func(ctl *kit.P2, c *fiber.Ctx) error { return h.method(ctl, godifiber.FromContext(c)) }, hopts...))
-	app.Get("/missing", mw, godifiber.Handle(func(ctl *kit.P5, c *fiber.Ctx) error { l().ev("handler"); return nil }, hopts...))
-	app.Get("/nomw", godifiber.Handle(func(ctl *kit.P2, c *fiber.Ctx) error { l().ev("handler"); return nil }, hopts...))
+	app.Get("/h", mw, godifiber.Handle(func(ctl *kit.P2, c *fiber.Ctx) error { return h.method(ctl, godifiber.FromContext(c), c.Get("X-Req")) }, hopts...))
+	app.Get("/missing", mw, godifiber.Handle(func(ctl *kit.P5, c *fiber.Ctx) error { lr(c).ev("handler"); return nil }, hopts...))
+	app.Get("/nomw", godifiber.Handle(func(ctl *kit.P2, c *fiber.Ctx) error { lr(c).ev("handler"); return nil }, hopts...))
 	app.Get("/raw", mw, func(c *fiber.Ctx) error {
 		s := godifiber.FromContext(c)
 		var ctl *kit.P2
@@ -325,9 +361,9 @@ func (h *webHarness) buildFiber() webRouter {
 		}
 		// the user context carries the scope as well
 		if s2, err := godi.FromContext(c.UserContext()); err != nil || s2 != s {
-			l().ev("usercontext-scope-mismatch")
+			lr(c).ev("usercontext-scope-mismatch")
 		}
-		return h.method(ctl, s)
+		return h.method(ctl, s, c.Get("X-Req"))
 	})
 	return &fiberRouter{app}
 }
@@ -367,14 +403,19 @@ func (h *webHarness) oneRequest(router webRouter, exit string, reqNo int) []Find
 	bad := func(clause string, d string) {
 		out = append(out, Finding{feat("clause", clause, "integ", h.c.Integ, "exit", exit), fmt.Sprintf("request %d (%s, exit %s): %s", reqNo, h.c.Integ, exit, d)})
 	}
-	h.exit = exit
-	h.log = &weblog{}
+	id := fmt.Sprint(reqNo)
+	if h.exits == nil {
+		h.exits = map[string]string{}
+	}
+	h.exits[id] = exit
+	h.logs = map[string]*weblog{}
+	h.log = h.lg(id)
 	initCalls := len(e.W.CallsOf(2))
 	nInst := len(e.W.Insts)
 	if exit == "scope-fail" {
 		e.W.Faults[fmt.Sprintf("2:%d", initCalls+1)] = "err"
 	}
-	res := router.serve(pathOf(exit))
+	res := router.serve(pathOf(exit), id)
 	log := h.log
 	evs := strings.Join(log.events, ",")
 	has := func(ev string) int {
@@ -499,7 +540,7 @@ func (h *webHarness) oneRequest(router webRouter, exit string, reqNo int) []Find
 			bad("scope-open-after-request", fmt.Sprintf("the request's scope still resolves after the request ended (err=%v)", err))
 		}
 	}
-	if has("closeErrorHandler") > 0 {
+	if len(h.lg("close").events) > 0 {
 		bad("close-error", "close error handler ran although no Close failed")
 	}
 	return out
@@ -624,9 +665,9 @@ func c16Seq(r *mc.Report, integ string) {
 
 // concurrent requests through one router (net/http, chi, gin, echo)
 type webConcCase struct {
-	Integ   string `json:"integ"`
+	Integ   string   `json:"integ"`
 	Exits   []string `json:"exits"`
-	Choices []int  `json:"choices"`
+	Choices []int    `json:"choices"`
 }
 
 func c16Conc(r *mc.Report, integ string, exits []string, pb int) {
@@ -638,18 +679,18 @@ func c16Conc(r *mc.Report, integ string, exits []string, pb int) {
 		spec := webSpec()
 		e := NewEnv(&spec)
 		e.Build()
-		hs := make([]*webHarness, len(exits))
-		routers := make([]webRouter, len(exits))
-		// one provider, one router per goroutine-local harness log but the SAME provider; routers share nothing but the provider and (gin/echo) are built per harness
+		// ONE router (one middleware instance, one handler instance) shared by all concurrent requests
+		h := &webHarness{e: e, c: c, exits: map[string]string{}, logs: map[string]*weblog{}}
+		router := h.build()
 		for i := range exits {
-			hs[i] = &webHarness{e: e, c: c}
-			routers[i] = hs[i].build()
+			h.exits[fmt.Sprint(i+1)] = exits[i]
+			h.lg(fmt.Sprint(i + 1))
 		}
 		var handles []*vsched.Handle
 		res := make([][]Finding, len(exits))
 		for i := range exits {
 			i := i
-			handles = append(handles, vsched.Go(func() { res[i] = hs[i].oneRequestConc(routers[i], exits[i], i+1) }))
+			handles = append(handles, vsched.Go(func() { res[i] = h.oneRequestConc(router, exits[i], i+1) }))
 		}
 		for _, hd := range handles {
 			vsched.Join(hd)
@@ -657,11 +698,15 @@ func c16Conc(r *mc.Report, integ string, exits []string, pb int) {
 		for i := range res {
 			fs = append(fs, res[i]...)
 		}
+		hs := make([]*weblog, len(exits))
+		for i := range exits {
+			hs[i] = h.lg(fmt.Sprint(i + 1))
+		}
 		// scoped probe instances of concurrent requests are distinct
 		seen := map[*kit.Inst]int{}
-		for i, h := range hs {
-			if h.log != nil && h.log.ctl != nil {
-				in := kit.InstOf(h.log.ctl)
+		for i, l := range hs {
+			if l != nil && l.ctl != nil {
+				in := kit.InstOf(l.ctl)
 				if j, dup := seen[in]; dup {
 					fs = append(fs, Finding{feat("clause", "controller-shared-between-requests", "integ", integ), fmt.Sprintf("requests %d and %d got the same scoped controller %s", j+1, i+1, in.Label())})
 				}
@@ -685,9 +730,9 @@ func c16Conc(r *mc.Report, integ string, exits []string, pb int) {
 			}
 		}
 		sum = ""
-		for _, h := range hs {
-			if h.log != nil {
-				sum += strings.Join(h.log.events, ",") + " | "
+		for _, l := range hs {
+			if l != nil {
+				sum += strings.Join(l.events, ",") + " | "
 			}
 		}
 	}
@@ -724,13 +769,13 @@ func (h *webHarness) oneRequestConc(router webRouter, exit string, reqNo int) []
 	bad := func(clause string, d string) {
 		out = append(out, Finding{feat("clause", clause, "integ", h.c.Integ, "exit", exit), fmt.Sprintf("concurrent request %d (%s, exit %s): %s", reqNo, h.c.Integ, exit, d)})
 	}
-	h.exit = exit
-	h.log = &weblog{}
-	res := router.serve(pathOf(exit))
-	evs := strings.Join(h.log.events, ",")
+	id := fmt.Sprint(reqNo)
+	res := router.serve(pathOf(exit), id)
+	log := h.lg(id)
+	evs := strings.Join(log.events, ",")
 	expectHandler := exit == "ok" || exit == "handler-error" || exit == "handler-panic" || exit == "raw"
 	n := 0
-	for _, x := range h.log.events {
+	for _, x := range log.events {
 		if x == "handler" {
 			n++
 		}
@@ -742,7 +787,7 @@ func (h *webHarness) oneRequestConc(router webRouter, exit string, reqNo int) []
 		bad("unexpected-panic", fmt.Sprint(res.panicked))
 	}
 	var sc godi.Scope
-	for _, s := range h.log.scopes {
+	for _, s := range log.scopes {
 		if s == nil {
 			bad("scope-not-visible", evs)
 			continue
@@ -758,8 +803,8 @@ func (h *webHarness) oneRequestConc(router webRouter, exit string, reqNo int) []
 			bad("scope-open-after-request", fmt.Sprintf("err=%v", err))
 		}
 	}
-	if h.log.ctl != nil {
-		in := kit.InstOf(h.log.ctl)
+	if log.ctl != nil {
+		in := kit.InstOf(log.ctl)
 		for _, a := range in.Call.Args {
 			if a.Kind == "scope" && a.Ref != any(sc) {
 				bad("controller-from-other-scope", "controller resolved from a different scope than the one in the request context")
@@ -774,9 +819,9 @@ func (h *webHarness) oneRequestConc(router webRouter, exit string, reqNo int) []
 
 func init() {
 	mc.Register(&mc.Check{
-		Prop: "C16",
-		Rule: "sequential: for each of net/http, chi (plain net/http chain), gin, echo, fiber: every combination of {default / custom error + close-error handlers} x {default / custom Handle handlers} x {recovery on / off} x {0, 1, 2 configured middlewares} x exit path {ok via Handle, ok via a raw handler using FromContext, middleware error at every position, handler error (echo, fiber), handler panic, scope-creation failure (failing initializer), provider closed, controller unregistered, route without the middleware}, plus every ordered pair of exit paths as a two-request sequence on one router (pooled contexts); concurrent: two requests through one provider in two goroutines for http / chi / gin / echo, every schedule with <=2 preemptions (godi's synchronisation points and user callbacks; framework internals run atomically). Oracle per request: scopes created, which of handler / error / scope-error / resolution-error / panic handlers ran, middleware order, one and the same scope seen by all, controller resolved from it, every instance created for the request closed exactly once and the scope refusing use when the request has ended, panics swallowed iff recovery is enabled. distinct = canonical event strings.",
-		Assume: []string{"fiber is always run behind fiber's own recover middleware (a panic reaching fasthttp would kill the process) and via app.Test", "go-chi itself is not a dependency of the chi adapter; it is driven with a plain net/http chain"},
+		Prop:        "C16",
+		Rule:        "sequential: for each of net/http, chi (plain net/http chain), gin, echo, fiber: every combination of {default / custom error + close-error handlers} x {default / custom Handle handlers} x {recovery on / off} x {0, 1, 2 configured middlewares} x exit path {ok via Handle, ok via a raw handler using FromContext, middleware error at every position, handler error (echo, fiber), handler panic, scope-creation failure (failing initializer), provider closed, controller unregistered, route without the middleware}, plus every ordered pair of exit paths as a two-request sequence on one router (pooled contexts); concurrent: two requests through one provider in two goroutines for http / chi / gin / echo, every schedule with <=2 preemptions (godi's synchronisation points and user callbacks; framework internals run atomically). Oracle per request: scopes created, which of handler / error / scope-error / resolution-error / panic handlers ran, middleware order, one and the same scope seen by all, controller resolved from it, every instance created for the request closed exactly once and the scope refusing use when the request has ended, panics swallowed iff recovery is enabled. distinct = canonical event strings.",
+		Assume:      []string{"fiber is always run behind fiber's own recover middleware (a panic reaching fasthttp would kill the process) and via app.Test", "go-chi itself is not a dependency of the chi adapter; it is driven with a plain net/http chain"},
 		MinOutcomes: 10,
 		Jobs: func(tier string) []mc.Job {
 			var jobs []mc.Job
